@@ -183,3 +183,15 @@ func c13R8(h H) {
 	}
 	r.Check(bad == "", "R8", "fastcgi.(*FCGIClient).writePairs/fits-whole-table", fn.Pos(), "a parameter whose encoding fits a record is sent whole", fmt.Sprintf("%d pairs evaluated", n), bad)
 }
+
+// c13R9: the client receives the responder's header fields — and not the CGI status line, which is the status.
+func c13R9(h H) {
+	r := h.r
+	r.Rule("R9", "the responder's header block is handed on without the CGI status line, as a table (E10) of FCGIClient.Request over the status lines of C19 R3: an accepted response's Header holds the application's fields (Content-Type) and no `Status` field", 1)
+	fn := h.fn("R9", fcPkg, "(*FCGIClient).Request")
+	if fn == nil {
+		return
+	}
+	_, hdrBad, n, total := fcgiStatusTable(h, fn)
+	r.Check(hdrBad == "" && total > 0, "R9", "fastcgi.(*FCGIClient).Request/header-without-status-line", fn.Pos(), "the status line is consumed, the other fields are kept", fmt.Sprintf("%d header blocks evaluated", n), hdrBad)
+}
